@@ -148,7 +148,31 @@ func runConvert(c *Ctx) {
 		"the identity function just built is resolved and executed by Call with the caller's options unmodified", fmt.Sprintf("receiver=%v options=%v", recvOK, optsThrough))
 	fa := funcOf.Common().Args
 	sigOK := only(fa[0], isParam(0)) && only(fa[1], isParam(0))
-	c.R.Add("CONVERT", "convertMulti|builds-for-target", core.FuncName(cm), p.InstrPos(funcOf), sigOK, "the identity function is built for exactly the requested target types", fmt.Sprintf("ok=%v", sigOK))
+	// … and the requested list itself is not edited on the way (an element rewritten before FuncOf is a different target)
+	edited := ""
+	for _, g := range p.Region(cm) {
+		core.Instrs(g, func(in ssa.Instruction) {
+			st, ok := in.(*ssa.Store)
+			if !ok {
+				return
+			}
+			ia, ok := st.Addr.(*ssa.IndexAddr)
+			if !ok {
+				return
+			}
+			base := core.Strip(ia.X)
+			if prm, isPrm := base.(*ssa.Parameter); isPrm {
+				base = core.Strip(p.Bind(prm))
+			}
+			if base == ssa.Value(cm.Params[0]) {
+				edited = "an element of the target list is overwritten at " + p.InstrPos(in)
+			}
+		})
+	}
+	if edited != "" {
+		sigOK = false
+	}
+	c.R.Add("CONVERT", "convertMulti|builds-for-target", core.FuncName(cm), p.InstrPos(funcOf), sigOK, "the identity function is built for exactly the requested target types", ternary(edited == "", fmt.Sprintf("ok=%v", sigOK), edited))
 	// returns result.out on success, (nil, err) on failure
 	succ, fail := false, 0
 	rets := p.IReturns(cm)
